@@ -19,12 +19,12 @@ Proof. exact make_key_inj_prefix. Qed.
 Print Assumptions C19_make_key_inj_prefix.
 
 (* The generated get_backend_timeout: DEFAULT -> backend default; None -> never; 0 -> already expired
-   (strictly before now); t < 0 -> already expired; t > 0 -> now + t. *)
+   (an expiry <= now: invisible to every lookup); t < 0 -> already expired; t > 0 -> now + t. *)
 Theorem C19_timeout_map : forall dflt now,
   expiry dflt now DjDefault = abs_exp now dflt
   /\ expiry dflt now DjNone = None
-  /\ (exists e, expiry dflt now (DjNum 0) = Some e /\ e < now)
-  /\ (forall t, t < 0 -> exists e, expiry dflt now (DjNum t) = Some e /\ e < now)
+  /\ (exists e, expiry dflt now (DjNum 0) = Some e /\ e <= now)
+  /\ (forall t, t < 0 -> exists e, expiry dflt now (DjNum t) = Some e /\ e <= now)
   /\ (forall t, t > 0 -> expiry dflt now (DjNum t) = Some (now + t)).
 Proof. exact timeout_map. Qed.
 Print Assumptions C19_timeout_map.
@@ -34,53 +34,42 @@ Theorem C19_timeout_total : forall dflt t, gbt_sentinel_escapes dflt t = false.
 Proof. exact bridge_gbt_no_escape. Qed.
 Print Assumptions C19_timeout_total.
 
-(* Full statement: every call of every history (clock not running backwards) returns what the contract
-   returns.  FALSE of the code as written -- incr/decr called exactly at the expiry instant of its key
-   increments an item no lookup can see (known finding C19-F1, defect D6 of Cache.incr). *)
-Theorem C19_refines_refuted :
-  exists c h, clock_ok 0 h = true /\ snd (run (dj_step c) [] h) <> snd (run (dj_spec c) [] h).
-Proof. exact refines_refuted. Qed.
-Print Assumptions C19_refines_refuted.
-
-(* Strongest true restriction, one call: from related states, for every operation, every clock value and
-   every configuration (prefix, default version, default timeout), unless the call is incr/decr exactly at
-   the expiry instant of its key, the backend returns what the contract returns and the states stay
-   related. *)
-Theorem C19_step_refines_partial : forall c now sp bk o,
-  R c now sp bk -> at_expiry_instant c bk o now = false ->
+(* One call: from related states, for every operation, every clock value and every configuration (prefix,
+   default version, default timeout) the backend returns what the contract returns and the states stay
+   related.  (Until D6 was fixed in core.py this carried the exclusion "not incr/decr exactly at the expiry
+   instant"; finding C19-F1, now `fixed:`.) *)
+Theorem C19_step_refines : forall c now sp bk o,
+  R c now sp bk ->
   snd (dj_step c bk o now) = snd (dj_spec c sp o now) /\
   R c now (fst (dj_spec c sp o now)) (fst (dj_step c bk o now)).
 Proof. exact step_refines. Qed.
-Print Assumptions C19_step_refines_partial.
+Print Assumptions C19_step_refines.
 
-(* ... lifted to all call sequences by induction: add, get, set, touch, delete, incr, decr, has_key,
-   get_many, set_many, delete_many, get_or_set, incr_version, decr_version, pop, clear in any order. *)
-Theorem C19_refines_partial : forall c t0 h,
-  clock_ok t0 h = true -> hits_expiry_instant c [] h = false ->
-  snd (run (dj_step c) [] h) = snd (run (dj_spec c) [] h).
-Proof. exact refines_partial. Qed.
-Print Assumptions C19_refines_partial.
+(* Full statement, lifted to all call sequences by induction: add, get, set, touch, delete, incr, decr,
+   has_key, get_many, set_many, delete_many, get_or_set, incr_version, decr_version, pop, clear in any order,
+   under any clock that does not run backwards. *)
+Theorem C19_refines : forall c t0 h,
+  clock_ok t0 h = true -> snd (run (dj_step c) [] h) = snd (run (dj_spec c) [] h).
+Proof. exact refines. Qed.
+Print Assumptions C19_refines.
 
-(* The excluded region is exactly the defect: there the backend returns a value where the contract raises. *)
-Theorem C19_excluded_region_is_the_defect : forall c now sp bk k delta ver,
-  R c now sp bk -> at_expiry_instant c bk (OIncr k delta ver) now = true ->
-  (exists x, snd (dj_step c bk (OIncr k delta ver) now) = RVal x) /\
-  snd (dj_spec c sp (OIncr k delta ver) now) = RRaise ValueError.
-Proof. exact at_expiry_instant_differs. Qed.
-Print Assumptions C19_excluded_region_is_the_defect.
+(* The clock hypothesis is genuinely needed: set(k, v, timeout=0) leaves a row with expire_time = now - 1 s
+   which the contract has forgotten; a clock jumping back by more than a second makes get see it again. *)
+Theorem C19_refines_needs_clock :
+  exists c h, clock_ok 0 h = false /\ snd (run (dj_step c) [] h) <> snd (run (dj_spec c) [] h).
+Proof. exact refines_needs_clock. Qed.
+Print Assumptions C19_refines_needs_clock.
 
-(* incr/decr on a missing or expired key raise ValueError (contract side, by definition of dj_spec; on the
-   backend side it follows from C19_step_refines_partial) -- stated for the backend directly: *)
+(* incr/decr on a missing or expired key raise ValueError -- stated for the backend directly: *)
 Theorem C19_incr_missing_raises_ValueError : forall c now sp bk k delta ver,
-  R c now sp bk -> at_expiry_instant c bk (OIncr k delta ver) now = false ->
-  slive now (ver_of c ver, k) sp = None ->
+  R c now sp bk -> slive now (ver_of c ver, k) sp = None ->
   snd (dj_step c bk (OIncr k delta ver) now) = RRaise ValueError /\
   snd (dj_step c bk (ODecr k delta ver) now) = RRaise ValueError.
 Proof. exact incr_missing_raises. Qed.
 Print Assumptions C19_incr_missing_raises_ValueError.
 
-(* Culling of expired rows (which the model leaves out) cannot be observed: removing a row whose
-   expire_time < now keeps the abstraction relation, hence every later answer. *)
+(* Culling of expired rows (which the model leaves out) cannot be observed: removing a row that no
+   lookup can see (expire_time <= now) keeps the abstraction relation, hence every later answer. *)
 Theorem C19_cull_unobservable : forall c now sp bk key,
   R c now sp bk -> R c now sp (cull_key now key bk).
 Proof. exact cull_unobservable. Qed.
